@@ -1,8 +1,8 @@
 SPECIFICATION Spec
 CONSTANTS
   W = 3
-  MaxT = 7
-  MaxLen = 6
+  MaxT = 6
+  MaxLen = 5
   Counts = {1, 2}
   InitCap = 2
   BrokenResize = FALSE
